@@ -1,5 +1,8 @@
 // Helpers for driving json_tokener on exact-size heap copies (any over-read is an ASan report).
 #pragma once
+#include <fcntl.h>
+#include <sys/mman.h>
+#include <unistd.h>
 #include "val.hpp"
 namespace vf {
 struct HeapCopy {
@@ -83,5 +86,70 @@ inline POut parse_fresh(const std::string &bytes, int flags, int depth, bool nul
 	POut r = parse_call(tok, bytes, nul);
 	json_tokener_free(tok);
 	return r;
+}
+// The descriptor / file entry points on real kernel objects. how: 0 memory file + json_object_from_fd, 1 packet-mode
+// pipe written in several pieces + json_object_from_fd (every read is short), 2 the same pipe opened by path through
+// json_object_from_file (a file whose size reads as 0), 3 memory file by path through json_object_from_file.
+// Returns false when the kernel object could not be set up (nothing explored).
+inline bool parse_via_fd(const std::string &bytes, int how, size_t piece, json_object **out)
+{
+	*out = nullptr;
+	if (how == 0 || how == 3)
+	{
+		int fd = memfd_create("vfd", 0);
+		if (fd < 0)
+			return false;
+		bool ok = write(fd, bytes.data(), bytes.size()) == (ssize_t)bytes.size() && lseek(fd, 0, SEEK_SET) == 0;
+		if (ok)
+		{
+			if (how == 0)
+				*out = json_object_from_fd(fd);
+			else
+			{
+				char path[64];
+				snprintf(path, sizeof path, "/proc/self/fd/%d", fd);
+				*out = json_object_from_file(path);
+			}
+		}
+		close(fd);
+		return ok;
+	}
+	if (bytes.size() > 48000)
+		return false; // must fit the pipe buffer: the writer and the reader are the same thread
+	int p[2];
+	if (pipe2(p, O_DIRECT) != 0)
+		return false;
+	if (piece < 1)
+		piece = 1;
+	if (piece > 4096)
+		piece = 4096;
+	bool ok = true;
+	if (bytes.size() / piece > 14)
+		piece = bytes.size() / 14 + 1; // at most 16 packets fit the default pipe
+	if (piece > 4096)
+	{
+		close(p[0]);
+		close(p[1]);
+		return false;
+	}
+	for (size_t at = 0; at < bytes.size() && ok; at += piece)
+	{
+		size_t n = std::min(piece, bytes.size() - at);
+		ok = write(p[1], bytes.data() + at, n) == (ssize_t)n;
+	}
+	close(p[1]);
+	if (ok)
+	{
+		if (how == 1)
+			*out = json_object_from_fd(p[0]);
+		else
+		{
+			char path[64];
+			snprintf(path, sizeof path, "/proc/self/fd/%d", p[0]);
+			*out = json_object_from_file(path);
+		}
+	}
+	close(p[0]);
+	return ok;
 }
 } // namespace vf
